@@ -6,11 +6,13 @@ import (
 	"os"
 	"runtime"
 	"sync"
+	"sync/atomic"
 	"testing"
 
 	"verif/internal/corpus"
 	"verif/internal/gen"
 	"verif/internal/hx"
+	"verif/internal/knownfind"
 	"verif/internal/recipe"
 	rtpkg "verif/internal/rt"
 
@@ -51,10 +53,16 @@ type outcome struct {
 	p      *rtpkg.Parsed
 }
 
-func roundTrip(c Case) (outcome, error) {
+func roundTrip(c Case) (outcome, error) { return roundTripX(c, true) }
+
+// roundTripX: with exclude set, programs in the input class of a known finding are not judged.
+func roundTripX(c Case, exclude bool) (outcome, error) {
 	p, status, why := rtpkg.Translate(c.Name, []byte(c.Src), rootFor(c.Root), nil, true)
 	if status != rtpkg.OK {
 		return outcome{status: status, why: why}, nil
+	}
+	if exclude && knownfind.GofmtStripsGenericLitParens(p.AST) {
+		return outcome{status: "excluded-known", why: "KF1"}, nil
 	}
 	out, err := rtpkg.Render(&recipe.Builder{}, p.Recipe)
 	if err != nil {
@@ -71,12 +79,19 @@ func check(c Case) error {
 	return err
 }
 
+// probe is the check the known-finding examples are replayed through: no exclusion.
+func probe(c Case) error {
+	_, err := roundTripX(c, false)
+	return err
+}
+
 func TestC01Corpus(t *testing.T) {
 	r := hx.Start(t, "C01")
 	defer r.Finish(t)
 	r.Rule("every .go file of the installed toolchain's src tree (quick: a seed-chosen third; thorough: all, plus the newer toolchain's tree) translated construct by construct into the documented DSL element, rendered, re-parsed and compared with the source tree (package name, imports with names, declarations modulo comments/layout/redundant parens); non-trivial = translated (not skipped) with >= 1 non-import declaration; distinct by file content")
 	r.Assume("files the translator cannot express with one File are skipped and counted by reason: dot-imported names needing type information, one path imported twice, import whose package name cannot be found on disk, source the go1.23 parser rejects")
 	ck := hx.Check[Case]{Name: "corpus_roundtrip", Fn: check}
+	hx.Replay(r, hx.Check[Case]{Name: "known_finding_probe", Fn: probe})
 	if hx.Replay(r, ck) {
 		return
 	}
@@ -123,6 +138,8 @@ func TestC01Corpus(t *testing.T) {
 			switch {
 			case err != nil:
 				r.Violate(ck.Name, c, err)
+			case oc.status == "excluded-known":
+				r.ExcludedKnown()
 			case oc.status != rtpkg.OK:
 				if oc.status == rtpkg.InvalidSrc {
 					r.Class(oc.status)
@@ -171,11 +188,15 @@ func TestC01Generated(t *testing.T) {
 		case rtpkg.InvalidSrc:
 			discards++
 			r.Discard()
+			t.Logf("generator bug: program does not parse:\n%s", src)
 		default:
 			r.Class("generated:skipped")
 		}
 		return c
 	})
+	for i := atomic.LoadInt64(&gen.ExcludedKnown); i > 0; i-- {
+		r.ExcludedKnown()
+	}
 	if !r.Replaying() && discards*100 > n {
 		r.Inconclusive("program generator: %d of %d programs do not parse (generator bug)", discards, n)
 	}
